@@ -368,6 +368,12 @@ FRAGS = [
          attrs={'route_prefix': (V('prefix'), OPT(TEXT))},
          sig='(prefix : option text) (inherit : bool) (pattern : text) : text', default='pattern'),
 ]
+# every source function whose control flow is regenerated on every run (fragments: the rest is in pins_masked.json)
+TRANSLATED = ['pyramid/urldispatch.py:RoutesMapper.__call__', 'pyramid/urldispatch.py:RoutesMapper.connect',
+              'pyramid/urldispatch.py:Route.__init__', 'pyramid/urldispatch.py:_compile_route.matcher',
+              'pyramid/traversal.py:split_path_info', 'pyramid/traversal.py:decode_path_info',
+              'pyramid/config/routes.py:RoutesConfiguratorMixin.add_route',
+              'pyramid/config/routes.py:RoutesConfiguratorMixin.route_prefix_context']
 MAPPER_ATTRS = {'routelist': ('routelist', 'set_routelist', ROUTES), 'static_routes': ('statics', 'set_statics', ROUTES),
                 'routes': ('routes', 'set_routes', 'dict of routes')}
 RESERVED = {'Route', '_compile_route', 'URLDecodeError', 'all', 'tuple', 'KeyError', 'UnicodeDecodeError'}
